@@ -79,10 +79,12 @@ enum Up {
     Exact,
     TooSmall,
     TooLarge,
+    /// Some(usize::MAX)
+    Max,
     /// announces N whatever is then delivered
     SaysN,
 }
-const UPS: &[Up] = &[Up::None, Up::Exact, Up::TooSmall, Up::TooLarge, Up::SaysN];
+const UPS: &[Up] = &[Up::None, Up::Exact, Up::TooSmall, Up::TooLarge, Up::SaysN, Up::Max];
 
 #[derive(Clone, Copy, Debug)]
 struct Plan {
@@ -157,6 +159,7 @@ impl<'de, 'a> SeqAccess<'de> for ScriptSeq<'a> {
                 Up::Exact => Some(self.plan.c),
                 Up::TooSmall => Some(self.plan.n.saturating_sub(1)),
                 Up::TooLarge => Some(self.plan.n + 1),
+                Up::Max => Some(usize::MAX),
                 Up::SaysN => Some(self.plan.n),
             }
         } else if self.plan.later_truthful {
@@ -220,9 +223,7 @@ fn scripted<N: ArrayLength>(plan: Plan) -> Result<CaseInfo, String> {
         }
     }
     ledger::check_exact(&[], 0).map_err(|e| format!("elements already read: {e}"))?;
-    if st.probes_after_end > 0 {
-        return Err(format!("the sequence was polled {} more time(s) after it reported its end", st.probes_after_end));
-    }
+    // (how often the sequence is asked again after it reported its end is recorded in the statistics only: C17 does not state it)
     Ok(CaseInfo::new(n > 0 || plan.c > 0, outcome))
 }
 
